@@ -40,6 +40,10 @@ type meth struct {
 // regenerated table): called with one element, so that one call = one atomic step
 var compoundMethods = map[string]bool{}
 
+// batchWithKey: in the same-key scenarios a variadic/slice argument is a batch of 1-3 elements starting at the key
+// (in the distinct-keys scenarios it is exactly the key)
+var batchWithKey bool
+
 // fresh values for pointer / interface parameters (another container of the same family)
 var freshPool = []func(r *vhlib.Rng) interface{}{
 	func(r *vhlib.Rng) interface{} { return bslice.NewUnsafeAnyBSliceBySlice[int](smallInts(r, 0, 4)) },
@@ -70,7 +74,8 @@ var durationT = reflect.TypeOf(time.Duration(0))
 // genArg builds one argument. ok=false: parameter type not supported (the method is then skipped and listed).
 func genArg(t reflect.Type, r *vhlib.Rng, key *int) (reflect.Value, bool) {
 	if t == durationT {
-		return reflect.ValueOf(time.Duration(-1)), true // bcache.NoExpire: time never decides an outcome
+		// bcache.NoExpire, DefaultExpire (none configured) or one hour: the clock never decides an outcome within a run
+		return reflect.ValueOf([]time.Duration{-1, -1, 0, time.Hour}[r.Intn(4)]), true
 	}
 	switch t.Kind() {
 	case reflect.Int, reflect.Int64, reflect.Int32:
@@ -94,12 +99,17 @@ func genArg(t reflect.Type, r *vhlib.Rng, key *int) (reflect.Value, bool) {
 			return reflect.ValueOf(docArg(r)).Convert(t), true
 		}
 		n := r.Range(1, 3) // never an empty batch (D18)
-		if key != nil {
+		if key != nil && !batchWithKey {
 			n = 1
 		}
 		s := reflect.MakeSlice(t, n, n)
 		for i := 0; i < n; i++ {
-			e, ok := genArg(t.Elem(), r, key)
+			ki := key
+			if key != nil && i > 0 { // a batch around the key: key, key+1, key+2
+				ki = new(int)
+				*ki = *key + i
+			}
+			e, ok := genArg(t.Elem(), r, ki)
 			if !ok {
 				return reflect.Value{}, false
 			}
@@ -457,8 +467,12 @@ var emptyDocs = []string{``, `null`, `[]`, `{}`, ` `}
 
 func setDocs(s *spec) {
 	validDocs = nil
+	mk := s.mk
+	if s.mkDoc != nil {
+		mk = s.mkDoc
+	}
 	for _, n := range []int{0, 1, 3, 6} {
-		inst := s.mk(n)
+		inst := mk(n)
 		ms, _ := usableMethods(inst)
 		for _, name := range marshalNames {
 			m := findMeth(ms, name)
